@@ -309,7 +309,7 @@ impl<Req, Res, E> RateLimiter<Req, Res, E> {
         ensures
             r matches Poll::Ready(Ok(_)) ==> final(self).inner.ready@,   // #ready_only_when_inner_ready [C20]
             r matches Poll::Ready(Err(e)) ==> e is Inner,   // #readiness_errors_surface_as_inner [C20]
-            final(self).limiter == old(self).limiter && final(self).config == old(self).config,   // #frame
+            final(self).limiter == old(self).limiter && final(self).config == old(self).config,   // #shared_state_handles_and_configuration_are_left_untouched [C02,C15]
     //@body RateLimiter::poll_ready@Service file=lib
 
     pub fn call(&mut self, req: Req, clk: &mut Clock, Tracked(tr): Tracked<&mut Trace<Req, Res, E>>, Tracked(gh): Tracked<&mut AdmLog>) -> (result: Result<Res, RateLimiterServiceError<E>>)
@@ -321,7 +321,7 @@ impl<Req, Res, E> RateLimiter<Req, Res, E> {
             final(tr).calls == 1 ==> final(tr).done == 1 && final(tr).last_req == Some(req),   // #request_forwarded_unchanged [C20]
             result matches Ok(v) ==> final(tr).last_done == Some(Ok::<Res, E>(v)),   // #response_returned_unchanged [C20]
             result matches Err(RateLimiterServiceError::Inner(e)) ==> final(tr).last_done == Some(Err::<Res, E>(e)),   // #inner_error_returned_unchanged [C20]
-            final(self).limiter == old(self).limiter && final(self).config == old(self).config,   // #frame
+            final(self).limiter == old(self).limiter && final(self).config == old(self).config,   // #shared_state_handles_and_configuration_are_left_untouched [C02,C15]
     //@body RateLimiter::call@Service file=lib
 }
 fn main() {}
